@@ -22,6 +22,8 @@ OBLIGATIONS.append(dict(id='C03.tree.or', engine='V', verus_fn='Parser::parse_ex
     desc='real parse_expr, every iteration: the right-hand chain of an OR is built as logical(chain, Or, operand) - operator and operand order fixed'))
 OBLIGATIONS.append(dict(id='C03.tree.and', engine='V', verus_fn='Parser::parse_and', label='C03.tree.and', complete=True, bound=None, units=[], harness='verus:Parser::parse_and', tier='quick',
     desc='real parse_and, every iteration: logical(chain, And, operand); its operands come from parse_cond and the operands of OR from parse_and (AND binds tighter - by the call structure)'))
+OBLIGATIONS.append(dict(id='C03.brackets', engine='V', verus_fn='Parser::parse_paren', label='C11.brackets', complete=True, bound=None, units=[], harness='verus:Parser::parse_paren', tier='quick',
+    desc='real parse_paren, every token vector: a round-bracketed expression is accepted only when closed by a round bracket, a curly one only by a curly bracket; the bracketed expression is returned unchanged (both styles mean the same)'))
 CANARIES = [dict(harness=CMP + 'canary_cmp_must_fail', units=['cmp']), dict(harness=LOGIC + 'canary_logic_must_fail', units=['logic']),
             dict(harness=OPS + 'canary_ops_must_fail', units=['operators'])]
 ASSUMPTIONS = ['float arm: stated for non-NaN operands (IEEE comparisons with NaN are not complements)', 'date arm: start <= finish']
